@@ -638,10 +638,12 @@ theorem npStep_error (a : Bool) (st : NPState) (c : Char) (e : Err) (h : npStep 
   · split at h
     · exact npFinalize_error _ _ _ h
     · split at h
+      · cases h; rfl
       · split at h
-        · cases h; rfl
+        · split at h
+          · cases h; rfl
+          · cases h
         · cases h
-      · cases h
 
 theorem npRun_error (a : Bool) (p : Text) : ∀ (st : NPState) (e : Err),
     npRun a st p = .error e → e = .value := by
